@@ -429,18 +429,22 @@ def applyDerived (st : IState) (l : List Nat) (calls : List (String × String)) 
     | some id => setDerive st id
     | none => st) st
 
-/-- own-attribute loop of a constructor.  `cur = some l`: a part with its own list `l` (`attributes.push( a )` then
-    `se->attributes.push( a )`); `cur = none`: the head itself. -/
+/-- one iteration of the own-attribute loop of a constructor: `new STEPattribute`, `attributes.push( a )` (and
+    `se->attributes.push( a )` when this is a part), `MakeRedefined` for a redeclaration.
+    `cur = some l`: a part with its own list `l`; `cur = none`: the head itself. -/
+def ownStep (e : Entity) (p : IState × Option (List Nat)) (a : Attr) : IState × Option (List Nat) :=
+  let sa : SA := { owner := e.name, name := dictAttrName a, kind := attrDKind a }
+  let st1 := (p.1.newObj sa).1
+  let id := (p.1.newObj sa).2
+  let cur' := p.2.map (fun l => pushId st1 l id)
+  let st2 : IState := { st1 with head := pushId st1 st1.head id }
+  let mine := match cur' with | some l => l | none => st2.head
+  let st3 := if a.redecl.isSome then
+      (match findAttr st2 mine a.name none with | some j => setRedef st2 j | none => st2) else st2
+  (st3, cur')
+
 def ownLoop (e : Entity) (st : IState) (cur : Option (List Nat)) : IState × Option (List Nat) :=
-  (e.attrs.filter (fun a => a.kind == .explicit)).foldl (fun (p : IState × Option (List Nat)) a =>
-    let sa : SA := { owner := e.name, name := dictAttrName a, kind := attrDKind a }
-    let (st, id) := p.1.newObj sa
-    let cur' := p.2.map (fun l => pushId st l id)
-    let st := { st with head := pushId st st.head id }
-    let mine := match cur' with | some l => l | none => st.head
-    let st := if a.redecl.isSome then
-        (match findAttr st mine a.name none with | some j => setRedef st j | none => st) else st
-    (st, cur')) (st, cur)
+  (e.attrs.filter (fun a => a.kind == .explicit)).foldl (ownStep e) (st, cur)
 
 def ctorWF (s : Schema) : Nat → String → IState → List Nat → IState × List Nat
   | 0, _, st, cur => (st, cur)
